@@ -81,14 +81,24 @@ class Machine(object):
         self.jumped_back = False
         self.after_copy = False
         self.after_raw_reread = False
+        self.rel = desc.get('paths', 'abs') == 'rel'
+        self._cwd0 = os.getcwd()
+        self._home0 = os.environ.get('HOME')
         self.recovery = 0        # 1 after a refused append-to-missing, 2 after write_self re-created it
 
     # -- plumbing -----------------------------------------------------------
     def path(self, name):
         return os.path.join(self.root, name)
 
+    def lpath(self, name):
+        """The spelling of a file name handed to the library: absolute, or (paths='rel') a bare
+        name relative to the current directory, which is the scratch root for the whole run."""
+        return name if self.rel else os.path.join(self.root, name)
+
     def install(self):
         ymod = self.ymod
+        os.chdir(self.root)               # relative spellings resolve inside the scratch root
+        os.environ['HOME'] = self.root    # and so does '~' for an implementation that expands it
         install_clock(self.seams, ymod, self.clock)
         log = self.seam_log
         root = self.root
@@ -108,6 +118,11 @@ class Machine(object):
 
     def close(self):
         self.seams.restore()
+        os.chdir(self._cwd0)
+        if self._home0 is None:
+            os.environ.pop('HOME', None)
+        else:
+            os.environ['HOME'] = self._home0
         shutil.rmtree(self.root, ignore_errors=True)
 
     def disk(self):
@@ -260,7 +275,8 @@ class Machine(object):
             # the file was produced by somebody else's tool; the object only reads it
             text = M.render_external(self.desc['tables'], self.desc['hdr'], self.desc.get('style', 0),
                                      eol=self.desc.get('eol', '\n'),
-                                     final_newline=self.desc.get('final_newline', True))
+                                     final_newline=self.desc.get('final_newline', True),
+                                     numfmt=self.desc.get('numfmt', 'plain'))
             with open(self.path('f0.par'), 'wb') as f:
                 f.write(text)
             mdl.files['f0.par'] = text
@@ -271,7 +287,7 @@ class Machine(object):
 
             def fn():
                 holder['obj'] = self.ymod.write_ndarray_to_yanny(
-                    self.path('f0.par'), tabs, structnames=names, enums=self._enums(), hdr=hdr,
+                    self.lpath('f0.par'), tabs, structnames=names, enums=self._enums(), hdr=hdr,
                     comments=comments)
             self._call(fn, 'ok')
             self.obj = holder['obj']
@@ -281,6 +297,8 @@ class Machine(object):
             mdl.files['f0.par'] = disk['f0.par']
             if start != 'writer':
                 self._reread(start == 'raw')
+        if self.rel:
+            self.probes['relative_file_names'] += 1
         self.check_all('init')
         self.trace.append(['init', start, self._filesig()])
 
@@ -288,7 +306,7 @@ class Machine(object):
         holder = {}
 
         def fn():
-            holder['obj'] = self.ymod.yanny(self.path(self.model.bound), raw=raw)
+            holder['obj'] = self.ymod.yanny(self.lpath(self.model.bound), raw=raw)
         self._call(fn, 'ok')
         self.obj = holder['obj']
         self.after_raw_reread = bool(raw)
@@ -301,7 +319,7 @@ class Machine(object):
         if op == 'append':
             outcome, extra = self._append(st)
         elif op == 'write_copy':
-            outcome = self._write(st['name'], explicit=True, comments=st.get('comments'))
+            outcome = self._write(st['name'], explicit=True, comments=st.get('comments'), spell=st.get('spell'))
         elif op == 'write_self':
             outcome = self._write(mdl.bound, explicit=False, comments=st.get('comments'))
         elif op == 'reread':
@@ -348,7 +366,7 @@ class Machine(object):
             if mdl.exists(name):
                 tabs, names, hdr = self._initial_args()
                 outcome = self._call(lambda: self.ymod.write_ndarray_to_yanny(
-                    self.path(name), tabs, structnames=names, enums=self._enums(), hdr=hdr), 'raise')
+                    self.lpath(name), tabs, structnames=names, enums=self._enums(), hdr=hdr), 'raise')
                 self.probes['write_ndarray_over_existing'] += 1
         elif op == 'clock_jump':
             before = self.clock.now
@@ -368,10 +386,17 @@ class Machine(object):
         self.abstract.append([op, outcome, bool(self.obj.raw)] + extra)
         self.trace.append([i, op, outcome, self._filesig()])
 
-    def _write(self, name, explicit, comments=None):
+    def _write(self, name, explicit, comments=None, spell=None):
         mdl = self.model
-        target = self.path(name)
+        target = self.lpath(name)
         exists = mdl.exists(name)
+        if spell == 'tilde':
+            # '~/name' with HOME = the scratch root, only ever onto an existing file: whether or
+            # not the implementation expands '~', the request must be refused and nothing changed
+            if not exists:
+                return 'skipped'
+            target = '~/' + name
+            self.probes['write_over_existing_spelled_with_tilde'] += 1
         kw = {} if comments is None else {'comments': comments}
         fn = (lambda: self.obj.write(target, **kw)) if explicit else (lambda: self.obj.write(**kw))
         if comments is not None:
